@@ -49,7 +49,11 @@ func c12Requests() []*rules.Request {
 	r10 := rules.NewRequest("http://a.com/\xff\xfe\xc3/x", "", rules.TypeOther)
 	r11 := rules.NewRequest("http://a.com/"+strings.Repeat("x", 5000), "", rules.TypeScript)
 	r12 := rules.NewRequestForHostname("\u212a.a.com")
-	return []*rules.Request{r1, r2, r3, r4, r5, r6, r7, r8, r9, r10, r11, r12}
+	// many sorted client tags (none of them "x"), a long client name
+	r13 := rules.NewRequestForHostname("a.com")
+	r13.SortedClientTags = []string{"d0", "d1", "d2", "d3", "d4", "d5", "d6", "d7", "d8", "d9"}
+	r13.ClientName, r13.DNSType = strings.Repeat("n", 300), 28
+	return []*rules.Request{r1, r2, r3, r4, r5, r6, r7, r8, r9, r10, r11, r12, r13}
 }
 
 // Termination watchdog.  "Parsing any line ... terminates": a parser that loops
@@ -212,7 +216,20 @@ func c12CheckLine(c *Ctx, line string, reqs []*rules.Request, engines bool) (acc
 var c12Rules = []string{
 	"||example.org^", "@@||example.org^$important", "/ad$domain=example.org", "/ex[a-z]+le/", "0.0.0.0 hosts.test", "hosts2.test",
 	"##.g1", "example.org##.s1", "example.org#@#.g1", "||rw.test^$dnsrewrite=1.2.3.4",
-	"/ad", // three bytes: the shortest line that is a rule
+	"/ad",                                                               // three bytes: the shortest line that is a rule
+	c12RuleOfLength(4094), c12RuleOfLength(4095), c12RuleOfLength(4096), // at the 4 KiB mark (with LF, CRLF or no terminator after them)
+}
+
+// c12RuleOfLength returns "/ad$domain=example.org|pad..." of exactly n bytes.
+func c12RuleOfLength(n int) string {
+	s := "/ad$domain=example.org"
+	for i := 0; len(s)+14 <= n; i++ {
+		s += fmt.Sprintf("|p%07d.test", i)
+	}
+	for len(s) < n {
+		s += "x"
+	}
+	return s
 }
 
 var c12Noise = []string{"", "  ", "\t", "! comment", "# comment", "#", "bad$unknown", "||x.test^$replace=/a/b/", "@@", "||y.test^$domain=", "$$script[x]",
